@@ -40,7 +40,7 @@ ASSUMPTIONS = [
     'for on_except/on_excepted (reachable only when the program itself raised E0) either E0 or the injected instance is accepted',
     'garbage-collection-timed loop reports ("exception was never retrieved") are not used by the oracle',
 ]
-EXPECTED_COUNTERS = ['class:construct', 'class:listener', 'class:pauseplay', 'class:late', 'class:fatal',
+EXPECTED_COUNTERS = ['kind:workchain', 'site:pred', 'class:construct', 'class:listener', 'class:pauseplay', 'class:late', 'class:fatal',
                      'scenario:plain', 'scenario:pauseplay', 'scenario:kill']
 PROGRAM_CFG = {
     'max_steps': 3,
@@ -77,8 +77,14 @@ def systematic(tier):
 
 
 def random_case(rng, tier):
-    program = programs.gen_process_program(rng, PROGRAM_CFG)
-    ticks, notify, _ = common.dry_run(program)
+    opts = {}
+    if rng.random() < 0.25:
+        # WorkChain: outline steps and predicates are user code too
+        program = common.gen_workchain_with_awaitables(rng)
+        opts = {'hooks': True}
+    else:
+        program = programs.gen_process_program(rng, PROGRAM_CFG)
+    ticks, notify, _ = common.dry_run(program, opts)
     scenario = rng.choice(['plain', 'pauseplay', 'pauseplay', 'kill'])
     if scenario == 'plain':
         schedule = []
@@ -93,10 +99,16 @@ def random_case(rng, tier):
             schedule.append({'act': 'pause', 'at': rng.randint(first, ticks + 3), 'msg': 'again'})
     else:
         schedule = [{'act': 'kill', 'at': rng.randint(0, ticks + 1), 'msg': 'kk'}]
-    return {'program': program, 'schedule': schedule, 'scenario': scenario, 'opts': {}}
+    return {'program': program, 'schedule': schedule, 'scenario': scenario, 'opts': opts}
 
 
 def shrink(case):
+    if case['program'].get('kind') == 'workchain':
+        for i in range(len(case['schedule'])):
+            candidate = copy.deepcopy(case)
+            del candidate['schedule'][i]
+            yield candidate
+        return
     for candidate in common.shrink_control({k: v for k, v in case.items() if k != 'fault'} | {'opts': {}}):
         candidate = dict(candidate)
         candidate['fault'] = case.get('fault')
@@ -135,6 +147,8 @@ def run(case):
     result.digests = set()
     result.runs = 0
     result.counters[f'scenario:{case.get("scenario", "plain")}'] += 1
+    if case['program'].get('kind') == 'workchain':
+        result.counters['kind:workchain'] += 1
 
     # fault-free run: which sites are reached, how often
     engine, started, drive = _execute(case, None)
@@ -177,6 +191,8 @@ def run(case):
                 continue
             result.counters[f'class:{kind}'] += 1
             result.counters[f'site:{site.split("@")[0] if site.startswith("step:") else site}'] += 1
+            if site.startswith('pred:'):
+                result.counters['site:pred'] += 1
             sub = Result()
             sub.events = list(world.events)
             result.digests.add(sub.digest())
